@@ -65,13 +65,16 @@ type MirroredBuffer struct {
 //
 // It is safe to call NewMirroredBuffer concurrently.
 func NewMirroredBuffer(size int, prefault bool) (b *MirroredBuffer, err error) {
+	// The buffer under construction. The failure paths below `return nil, err`, which clears the named result `b`
+	// before the deferred function runs, so the mapping to destroy is remembered here.
+	var created *MirroredBuffer
 	defer func() {
 		// NOTE: We must ensure the mapping is destroyed in case the constructor
 		// fails. This means you should never write `err :=` below. Always write
 		// `err = `. You can safely return a new error (like with `fmt.Errorf`)
 		// - it will get assigned to the error value defined above.
-		if err != nil && b != nil {
-			_ = b.Destroy()
+		if err != nil && created != nil {
+			_ = created.Destroy()
 		}
 	}()
 
@@ -92,6 +95,7 @@ func NewMirroredBuffer(size int, prefault bool) (b *MirroredBuffer, err error) {
 		tail: 0,
 		used: 0,
 	}
+	created = b
 
 	// TODO location should be logged to syslog
 	directory := "/dev/shm"
